@@ -141,6 +141,12 @@ def build_tree(scratch, name="b", split=None, cflags=None, ldflags=None, targets
         os.makedirs(os.path.join(root, "alias"), exist_ok=True)
         with open(os.path.join(root, "control", "me"), "w") as f:
             f.write("test.example\n")
+        # the programs the suite runs by relative path under its home (bin/qmail-queue, bin/qmail-local, ...)
+        for b in ("qmail-queue", "qmail-clean", "qmail-send", "qmail-lspawn", "qmail-rspawn", "qmail-local", "qmail-remote",
+                  "qmail-getpw", "qmail-inject", "qmail-newu", "qmail-newmrh", "qmail-smtpd", "qmail-qmtpd", "qmail-qmqpd", "qmail-pop3d", "qmail-popup"):
+            sp = os.path.join(src, b)
+            if os.path.exists(sp):
+                shutil.copy2(sp, os.path.join(root, "bin", b))
     return t
 
 
